@@ -30,19 +30,19 @@ PROPS = {
 
 
 PROPS["C12"] = dict(
-    slices=["tour_pos", "tour_mod", "path"],
+    slices=["tour_pos", "tour_mod", "path", "tour_ctor"],
     witness_family="tour",
     level_text="Verus proves, for all well-formed tours over all valid networks, all connected paths and all segments, that the real code satisfies the reference semantics written from the property statement: the position logic (binary searches, latest_not_reaching_node, latest_not_reached_by_node, get_insert_positions) yields the longest prefix / longest suffix; insert_path returns prefix + whole path + suffix and reports exactly the dropped block (None iff it holds no activity); remove returns the tour without exactly the segment's nodes and is refused exactly when a depot would be stranded or the gap is unconnectable; check_if_sequence_is_removable, conflict and sub_path (always succeeds for an existing segment) likewise",
     level_note="trusted: vstd specs, key-model axioms, structural derived Eq/Ord, to_vec, the SeqIter shim incl. splice (R5b) and Vec::extend; Tour::position_of is a stub (A-stub); Tour::wf / Network::wf / path connectedness are preconditions",
     scope="solution/src/tour.rs position logic + Tour::insert_path / remove / sub_path / conflict",
     assumptions=A_COMMON + [
-        "A-stub: Tour::position_of (binary_search_by on cmp_start_time) returns the index of the node iff it is in the tour",
+        "A-stub/A-lib: Tour::position_of is a stub in the tour slices; slice tour_ctor proves that its contract follows from the std semantics of slice::binary_search_by (A-lib) applied to the verified comparator (R8 fragment, Node::cmp_start_time) on a tour that is strictly sorted by that key (proved), plus A-index (the node stored under key i has index i)",
     ] + A_ITER,
 )
 
 
 PROPS["C01"] = dict(
-    slices=["network", "net_enum", "tour_pos", "tour_mod", "path"],
+    slices=["network", "net_enum", "tour_pos", "tour_mod", "path", "tour_ctor"],
     witness_family="tour",
     level_text="Verus proves on the real code: can_reach equals the documented timing rule; Tour::new_allow_invalid returns Ok exactly for node sequences that start at a start depot, end at an end depot, have only activities in between, at least one of them, and are pairwise connectable; replace_start_depot, replace_end_depot, remove and insert_path (given a connected path, which Path::new is proved to establish) preserve that invariant (Tour::wf); successors/predecessors enumerate exactly the connectable nodes. Type feasibility, Tour::new_dummy and the JSON writer are assumptions, not proved",
     level_note="trusted: vstd, key-model axioms, derived Eq/Ord, the SeqIter shim, to_vec/Option::or/Result::unwrap_or specs, A-fmt; stub: Tour::position_of; A-path (paths handed to insert_path are connected), A-type (compatible_with_vehicle_type guards in schedule/modifications.rs) and A-json are caller-side assumptions",
